@@ -54,9 +54,32 @@ class Raw:
         self.text = text
 
 
+RAW = '__raw_json_text__'      # longer than any generated key, so it cannot be drawn as data
+
+
+def is_raw(v):
+    '''A marker for literal JSON text (Infinity, 1e999 ...).  The old short marker (committed
+    replays) counts only with a string Python's JSON parser accepts: generated data may contain
+    that key by chance.'''
+    if not (isinstance(v, dict) and len(v) == 1):
+        return None
+    (k, t), = v.items()
+    if not isinstance(t, str):
+        return None
+    if k == RAW:
+        return t
+    if k == '__raw__':
+        try:
+            json.loads(t)
+        except ValueError:
+            return None
+        return t
+    return None
+
+
 def to_text(v):
-    if isinstance(v, dict) and set(v) == {'__raw__'}:
-        return v['__raw__']
+    if is_raw(v) is not None:
+        return is_raw(v)
     if isinstance(v, list):
         return '[' + ','.join(to_text(x) for x in v) + ']'
     if isinstance(v, dict):
@@ -65,7 +88,7 @@ def to_text(v):
 
 
 def raw(text):
-    return {'__raw__': text}
+    return {RAW: text}
 
 
 VALID_SH = W.scripthash_hex(W.SCRIPTS[0])
@@ -215,8 +238,8 @@ def params_text(world, call):
 
 
 def shape_of(v):
-    if isinstance(v, dict) and set(v) == {'__raw__'}:
-        return 'raw(' + v['__raw__'][:8] + ')'
+    if is_raw(v) is not None:
+        return 'raw(' + is_raw(v)[:8] + ')'
     if isinstance(v, bool):
         return 'bool'
     if v is None:
